@@ -15,4 +15,4 @@ R01.5 / R01.6 driver and iterator shape (shared with C01)."""
 NOT_DECIDED = """Failure-link correctness for arbitrary tries; that max_match_id bounds exactly the match states; completeness of id remapping (R02.3 of the design was not built)."""
 CLAIM = """Static decision of the earliest-flag derivation/plumbing and of the failure-link / match-inheritance pairing in the builder; mechanism shape only."""
 NOTE = """Trusted: rustc MIR construction, the fact extractor. The remap-completeness rule (R02.3) of the design is not implemented."""
-TECHNIQUE = "static analysis: graph cuts, pairing (must-pass-through) and term matching over rustc MIR"
+TECHNIQUE = "static analysis: loop-iteration summaries of the failure-link construction (pairing of link store and match inheritance, walk step), graph cuts and term matching over rustc MIR"
